@@ -8,6 +8,7 @@ import (
 	"fmt"
 	"go/types"
 	"math"
+	"os"
 	"strings"
 
 	"golang.org/x/tools/go/ssa"
@@ -593,6 +594,9 @@ func extWGAdd(fr *frame, args []value) value {
 	i.yieldPoint("wg.add")
 	w := i.wgOf(args[0].(*value))
 	w.n += i.concretize(args[1], "wg.Add")
+	if schedDebug {
+		fmt.Fprintf(os.Stderr, "wg %p add %v -> %d (%s)\n", args[0], args[1], w.n, fr.caller.fn)
+	}
 	if w.n < 0 {
 		panic(targetPanic{v: iface{i.runtimeErrorString, "sync: negative WaitGroup counter"}})
 	}
@@ -603,6 +607,9 @@ func extWGWait(fr *frame, args []value) value {
 	i := fr.i
 	i.yieldPoint("wg.wait")
 	w := i.wgOf(args[0].(*value))
+	if schedDebug {
+		fmt.Fprintf(os.Stderr, "wg %p wait n=%d (%s)\n", args[0], w.n, fr.caller.fn)
+	}
 	i.block(func() bool { return w.n == 0 }, "WaitGroup.Wait")
 	return nil
 }
